@@ -179,11 +179,15 @@ package ethereum
 // trkGetOK(ts): environment flag "reads of this store do not fail" (no gas exhaustion, records decode). Nobody can
 // establish it; app.doEthTransitions `assumes` it because it ignores the error of Get for the names it has just iterated.
 //@ model trkGetOK(*TrackerStore) bool
-//@ assume func (*TrackerStore).Iterate
-//@   iterator
-//@   requires ts != nil                                                                                       // C18.nil-store
-//@   modifies nothing
-//@   yields y0 != nil && y1 != nil
+// Iterate: PROVED on its body (not assumed). A prefix scan of the key space in force (State.IterateRange from ts.prefix to
+// Rangefix of the SAME ts.prefix: C09.prefix-scan at the call), every element handed to fn is a freshly allocated name
+// and a freshly decoded tracker, and the scan stops early only when fn asks for it: a record that does not decode is
+// skipped and must not cut the others off (iter-stop). Completeness is NOT claimed: the scan walks committed keys only.
+//@ func (*TrackerStore).Iterate
+//@   iterator                                                                                                 // C15.tracker-scan
+//@   requires ts != nil && ts.state != nil                                                                    // C18.nil-store
+//@   modifies exhausted(ts.state.cache), exhausted(ts.state.txSession)
+//@   yields y0 != nil && y1 != nil                                                                            // C15.tracker-scan
 
 //@ assume func (*TrackerStore).Set
 //@   requires ts != nil && trkWf(tracker) && trkDistinctW(tracker) && 2 * len(tracker.Witnesses) <= 9223372036854775807      // C15.store-inv
